@@ -58,4 +58,14 @@ CHECKS = {
   'note': TB,
   'technique': 'Coq proof of parser totality + correspondence + differential evaluation/history/concurrency search',
  },
+ 'C15': {
+  'text': ("Proof (Coq): for every set of at most 8/16 names and EVERY key, the bitmap matcher model (table construction of tryOptimize, the "
+           "AND-walk, TrailingZeros, the decoded-length test) never indexes its tables out of range, selects a field only if the lower-cased key equals "
+           "that field's name (no prefix, no extension), and with the names in sort.Strings order always finds the field whose name is the lower-cased key. "
+           "Tied by ~10^4 model-vs-implementation cases per run on eligible name sets. Raw, partly and fully \\u-escaped keys, buffer and stream (whole "
+           "and 1-byte readers), 1..17 names from an 8-symbol alphabet, embedded structs to depth 3 with conflicts and Marshal member order are compared "
+           "with encoding/json. Partial: escape decoding inside keys, the map-based fallback and embedded-field resolution are compared, not modelled."),
+  'note': TB + " lower (largeToSmallTable) is written by hand in the model: the table is filled by a loop in init(), which the translator does not evaluate.",
+  'technique': 'Coq proof of the bitmap matcher + correspondence + differential search over name sets and keys',
+ },
 }
